@@ -52,6 +52,7 @@ func historyTrace(cfg Cfg, path []Op, realDir string) (string, bool) {
 	x := vrt.Run(vrt.Config{Sequential: true, MaxTicks: 10}, func() {
 		w := &World{Cfg: cfg, FS: vfs.New(), Root: dbRoot, M: NewModel(), Ever: map[string]bool{}, Dead: map[string]bool{}, prop: "UNTOUCHED"}
 		w.M.UniqueP = cfg.Index == 3
+		w.M.UniqueV = cfg.UniqueV()
 		if realDir != "" {
 			w.Root = realDir
 		}
